@@ -658,7 +658,7 @@ def run(ctx):
     ctx.exhaustive = True
     if ctx.quick:
         ctx.mc('MC_Ops', 'MC_Ops_quick.cfg')
-        ctx.mc('MC_Ops', 'MC_Ops_law.cfg')
+        ctx.mc('MC_Ops', 'MC_Ops_law.cfg', coverage=False)        # (one action, Eval; coverage bookkeeping of the recursive operators is costly)
         s2c(ctx, report, ctx.generate('MC_Ops', 'MC_Ops_gen_quick.cfg'), 7000)
         s2c(ctx, report, ctx.generate('MC_Ops', 'MC_Ops_gen_frames.cfg'), 3000)
         s2c(ctx, report, ctx.generate('MC_Ops', 'MC_Ops_gen_fill.cfg'), 1500)
@@ -666,7 +666,7 @@ def run(ctx):
         sessions(ctx, report)
     else:
         ctx.mc('MC_Ops', 'MC_Ops_thorough.cfg')
-        ctx.mc('MC_Ops', 'MC_Ops_law3.cfg')
+        ctx.mc('MC_Ops', 'MC_Ops_law3.cfg', coverage=False)
         s2c(ctx, report, ctx.generate('MC_Ops', 'MC_Ops_gen_fill3.cfg'), 20000)
         s2c(ctx, report, ctx.generate('MC_Ops', 'MC_Ops_gen_fillframes.cfg'), 10000)
         s2c(ctx, report, ctx.generate('MC_Ops', 'MC_Ops_gen_quick.cfg'), 60000)
